@@ -25,3 +25,20 @@ def kinds_present(module):
 
 def short(text, n=1500):
     return text if len(text) <= n else text[:n] + f"... [{len(text)} chars]"
+
+
+def large_campaign(ctx, strat, evaluate, n, label="large-module"):
+    """A few cases far beyond the size of the main campaign's (hundreds of items in one module), drawn by a seeded
+    Hypothesis run of their own; every case is recorded like a campaign case (same schema, so --replay works)."""
+    import hypothesis
+    from hypothesis import given, settings, HealthCheck, Phase
+
+    @hypothesis.seed(ctx.seed * 7919 + 11)
+    @settings(max_examples=n, deadline=None, database=None, phases=[Phase.generate], suppress_health_check=list(HealthCheck))
+    @given(strat)
+    def run(case):
+        r = evaluate(case)
+        r.labels.append(label)
+        r.labels.append(f"{label}:items>={len(case['module']['items']) // 50 * 50}")
+        ctx.record(case, r)
+    run()
